@@ -785,6 +785,8 @@ func (g *generator) enterNextFinallyFrame() (canContinue bool) {
 			vm.throw(ex)
 			return true
 		}
+		// closing the iterators pushes (and pops) try frames: the stack may have been reallocated
+		tf = &vm.tryStack[len(vm.tryStack)-1]
 		if tf.finallyPos >= 0 {
 			vm.sp = int(tf.sp)
 			vm.stash = tf.stash
